@@ -241,6 +241,8 @@ def run_op(hist, op, idx, *, tape=None, uberjob_kwargs=None, client_wrap=None, s
     rec.disk_before = hist.disk.snapshot()
     rec.mtimes_before = hist.disk.mtimes()
     rec.snap_before = snapshot(built)
+    rec.extra["sources_at_start"] = hist.source_values()
+    rec.extra["fresh"] = hist.fresh
     observers = rec.observers
 
     kwargs = dict(
@@ -254,12 +256,11 @@ def run_op(hist, op, idx, *, tape=None, uberjob_kwargs=None, client_wrap=None, s
         kwargs["registry"] = built.registry
         if cfg.get("stale_workers") is not None:
             kwargs["stale_check_max_workers"] = cfg["stale_workers"]
-        if cfg.get("fresh") is not None:
-            fr = cfg["fresh"]
-            rec.fresh_instant = fr["instant"]
+        if cfg.get("use_fresh", True) and hist.fresh is not None:
             from model.stores import render_instant
 
-            kwargs["fresh_time"] = render_instant(fr["instant"], fr.get("render"))
+            rec.fresh_instant = hist.fresh
+            kwargs["fresh_time"] = render_instant(hist.fresh, cfg.get("fresh_render"))
     if cfg.get("output", True) and built.output is not None:
         kwargs["output"] = built.output
     if cfg.get("dry_run"):
@@ -343,11 +344,11 @@ def apply_op(hist, op, idx, **kw):
     elif k == "advance":
         hist.disk.now += op["seconds"]
     elif k == "fresh":
-        # fresh_time := now (+ small offset so that it is distinct from mtimes)
+        # fresh_time := an instant later than every existing modified time and
+        # earlier than every later write (pairwise distinct instants)
         hist.disk.now += 1.0
-        hist.fresh = _EPOCH + hist.disk.now + 0.5
-        hist.disk.now += 1.0
-        hist.disk.last = max(hist.disk.last, hist.fresh + 0.25)
+        hist.fresh = max(_EPOCH + hist.disk.now, hist.disk.last) + 0.5
+        hist.disk.last = hist.fresh + 0.25
     else:
         raise ValueError(k)
     hist.h.update(repr(("op", k, sorted(hist.disk.mtimes().items()))).encode())
